@@ -456,3 +456,27 @@ NOTES = ("Runtime monitoring of the real code only; no compiler sanitizers or "
          "Python (DESIGN.md §0). Exit codes: 0 held on everything observed, "
          "1 violation, 2 inconclusive (deciding monitor not reached / worker "
          "watchdog). Known findings: known_findings.json.")
+
+
+# ----------------------------------------------------------------------
+# Coverage floors are kept in nv/floors.json: one third of the smallest value
+# observed over a seed sweep of the quick tier (tools/calibrate_floors.py), so
+# that a run on the unchanged tree never misses one by chance while a run
+# whose deciding monitor was not reached still does.  The thorough tier does
+# at least ten times the work of the quick tier and uses the same floors.
+def _load_floors():
+    import json
+    import os
+    path = os.path.join(os.path.dirname(os.path.abspath(__file__)),
+                        "floors.json")
+    if not os.path.exists(path):
+        return
+    with open(path) as f:
+        table = json.load(f)
+    for prop, floors in table.items():
+        if prop in PROPS:
+            PROPS[prop]["floors"] = {"quick": dict(floors),
+                                     "thorough": dict(floors)}
+
+
+_load_floors()
